@@ -691,12 +691,27 @@ def gen_case_c07(seed, tier):
         add_require_provide(rng, spec)
     spec["config"]["hash"] = rng.choice(["sha1", "sha256", "blake3", "xxhash", "crc32", "crc64"])
     labs = [rs.label(p, t["name"]) for p, t in rs.all_targets(spec)]
+    r2 = Rng(subseed(seed, "c07-package"))
+    users = [p for p in sorted(spec["pkgs"]) if spec["pkgs"][p].get("use_defs")]
+    if spec.get("defs") and users and r2.chance(0.7):
+        # a configuration value introduced by the subincluded file, overridden per package with package();
+        # every such package has a target whose command embeds the value it sees
+        spec["defs_extra"] = 'CONFIG.setdefault("TOOLCHAIN", {"CC": "gcc", "OPT": "-O1"})\n'
+        for p in users:
+            pk = spec["pkgs"][p]
+            if r2.chance(0.5):
+                pk["raw_after_subinclude"] = 'package(toolchain = {"CC": "cc-%s", "OPT": "-O%d"})\n\n' % (p.replace("/", "-"), r2.intn(4))
+            pk["raw_suffix"] = (pk.get("raw_suffix") or "") + 'genrule(\n    name = "tc",\n    outs = ["tc.out"],\n    cmd = "echo \'%s\' > $OUT" % str(CONFIG.TOOLCHAIN),\n    visibility = ["PUBLIC"],\n)\n'
+            labs.append(rs.label(p, "tc"))
     nrun = 6 if tier == "quick" else 16
     runs = []
     detailed = rng.chance(0.5)
     for j in range(nrun):
         order = list(labs)
         rng.shuffle(order)
+        if j > 0 and j % 3 == 2:
+            # a subset only: what else is parsed and hashed in the same invocation must not matter
+            order = order[:r2.rng(1, max(1, len(order) - 1))]
         threads = [1, 16][j % 2]
         args = ["hash"] + (["--detailed"] if detailed else []) + order + BASE_ARGS + ["-n", str(threads)]
         runs.append({"args": args, "seed": subseed(seed, "run%d" % j), "policy": "", "fresh": rng.chance(0.6)})
@@ -735,8 +750,10 @@ def exec_case_c07(bindir, case):
             hl = hash_lines(res.stdout)
             if ref is None:
                 ref = (j, hl, dict(run, choices=res.choices()))
-            elif hl != ref[1]:
-                diff = [(a, b) for a, b in zip(ref[1], hl) if a != b][:4]
+            elif [b for b in hl if b not in ref[1]]:
+                # (a run may ask for a subset of the labels: every block it prints must equal the reference's)
+                refd = {b[0]: b for b in ref[1]}
+                diff = [(refd.get(b[0]), b) for b in hl if b not in ref[1]][:4]
                 out.append(("hash-differs", "run %d and run %d of the same repository print different hashes: %s" % (ref[0], j, diff), j, dict(run, choices=res.choices())))
                 case["ref_run"] = ref[2]
                 break
